@@ -45,6 +45,7 @@ SPEC = {
              "random intervals and all after the last one, values go to 1..3 attribute sets, and each delta reader's "
              "points are recombined with the SDK's Merge and compared with the one-shot model. A case is non-trivial if "
              "at least one value was recorded; distinct = hash of (type, boundaries, flags, value sequence, k)."),
+    "rule_extra": ' Round 2: one record in three for the attribute-less series goes through the attribute-taking overload with an empty list; one history in ten has three readers, one collecting after each of 18-40 non-empty intervals and two lagging.',
     "assumptions": ASSUME_COMMON + [
         "non-negative finite values only (the statement says so); -0.0 is a zero and compared with ==",
         "at most one value above 1e300 magnitude class 1e308 per multiset and int64 totals below 2^62, so that the true sum is finite/representable in every summation order (overflow of the workload's own total is not an SDK defect)",
